@@ -856,7 +856,7 @@ func TestVerif_C09_stress(t *testing.T) {
 	} else {
 		s.Count("altsvc-facts-unguarded(known finding): concurrent Alt-Svc scenario withheld")
 	}
-	rounds := verifh.N(14, 160)
+	rounds := verifh.N(35, 400)
 	kinds := []string{"h1", "h1", "mixed", "h1", "mixed", "h3forced", "altsvc"}
 	tag := 0
 	for i := 0; i < rounds; i++ {
